@@ -576,8 +576,8 @@ func run(r *enumx.Run, replay *enumx.ReplayCase) {
 
 	// MultiReaderCloser.WriteTo allocates a 32 KiB buffer per call; with the
 	// default pacing the collector would run every ~128 cases and serialise the
-	// workers. Collect only when the heap reaches 1 GiB.
-	ballast := make([]byte, 512<<20) // never touched: virtual only
+	// workers.
+	ballast := make([]byte, 1<<30) // never touched, so virtual only; the collector then runs once per ~1 GiB of garbage
 	defer runtime.KeepAlive(ballast)
 
 	byKey := map[string]int64{}
